@@ -70,6 +70,11 @@ def main(tier, seed, args):
     configs.append(('never complete[2 htlcs, free]', cfg, pc, mons(TimeoutMonitor(False), Coverage(['timer', 'response:Fail(2019)'])), {}))
     cfg, pc = cfg_partial(1, True)
     configs.append(('never complete[1 htlc, restart]', cfg, pc, mons(DeadOldParts(), TimeoutMonitor(True), Coverage(['timer', 'response:Fail(2019)'])), {}))
+    # "well-formed response": a `continue` that rewrites the payload still carries a valid TLV stream (C13's rewrite cases)
+    from .c13 import build_cases
+    for case in build_cases(tier):
+        if 'rewrite' in case[0]:
+            configs.append(('well-formed continue: ' + case[0],) + tuple(case[1:]))
     scen_common.run_configs(rep, PID, c, configs, budget)
     if not rep.violations:
         from .c20 import run_explorer
